@@ -625,6 +625,11 @@ namespace
             int visit(const T1& x) override { log->push_back({1, &x}); return 101; }
             int visit(const T2& x) override { log->push_back({2, &x}); return 102; }
         };
+        // a visitor assembled from two mix-ins that each derive from base_visitor: it has two base_visitor sub-objects and
+        // can be handed to accept() through either; the handler is found by a cross-cast from whichever was passed
+        struct MixA : xtl::base_visitor, xtl::visitor<T1, int, false> { Log* log; int visit(T1& x) override { log->push_back({1, &x}); return 101; } };
+        struct MixB : xtl::base_visitor, xtl::visitor<T2, int, false> { Log* log; int visit(T2& x) override { log->push_back({2, &x}); return 102; } };
+        struct Both : MixA, MixB {};
         static constexpr bool throwing = HT::throwing;
         Run& run; const Plan& plan; Log log; std::string tail;
         R root; T1 o1; T2 o2; T3 o3;
@@ -634,12 +639,14 @@ namespace
         {
             StepScope sc(run, st, plan.cfg.c_str());
             int t = static_cast<int>(st.a % 4);      // 0 root, 1..3 leaves
-            int v = static_cast<int>(st.b % 6);      // visitor kind
+            int v = static_cast<int>(st.b % 8);      // visitor kind
             run.abstract(mix(strhash(plan.cfg.c_str()), static_cast<uint64_t>(t), static_cast<uint64_t>(v)));
             R* target = t == 0 ? &root : (t == 1 ? static_cast<R*>(&o1) : (t == 2 ? static_cast<R*>(&o2) : static_cast<R*>(&o3)));
             VisAll va; va.log = &log; Vis12 v12; v12.log = &log; Vis3 v3; v3.log = &log; VisNone vn; VisThrows vt; vt.log = &log; VisConstFlavour vcf; vcf.log = &log;
-            xtl::base_visitor* vis = v == 5 ? static_cast<xtl::base_visitor*>(&vcf) : v == 0 ? static_cast<xtl::base_visitor*>(&va) : (v == 1 ? static_cast<xtl::base_visitor*>(&v12) : (v == 2 ? static_cast<xtl::base_visitor*>(&v3) : (v == 3 ? static_cast<xtl::base_visitor*>(&vn) : static_cast<xtl::base_visitor*>(&vt))));
-            bool implemented = t != 0 && ((v == 0) || ((v == 1 || v == 4) && (t == 1 || t == 2)) || (v == 2 && t == 3));
+            Both both; both.MixA::log = &log; both.MixB::log = &log;
+            xtl::base_visitor* vis = v == 6 ? static_cast<xtl::base_visitor*>(static_cast<MixA*>(&both)) : v == 7 ? static_cast<xtl::base_visitor*>(static_cast<MixB*>(&both)) : v == 5 ? static_cast<xtl::base_visitor*>(&vcf) : v == 0 ? static_cast<xtl::base_visitor*>(&va) : (v == 1 ? static_cast<xtl::base_visitor*>(&v12) : (v == 2 ? static_cast<xtl::base_visitor*>(&v3) : (v == 3 ? static_cast<xtl::base_visitor*>(&vn) : static_cast<xtl::base_visitor*>(&vt))));
+            bool implemented = t != 0 && ((v == 0) || ((v == 1 || v == 4 || v == 6 || v == 7) && (t == 1 || t == 2)) || (v == 2 && t == 3));
+            if (v >= 6) SIM_PROBE("visitor_with_two_base_visitor_subobjects");
             log.clear(); catch_log().clear();
             bool error = false; int ret = -1;
             if (v == 4 && implemented)
